@@ -331,6 +331,10 @@ def model_ops(s):
             out.append("put %s %s %s %s" % (t[1], t[2], t[3], t[4]))
         elif t[0] == "app":
             out.append(o)
+        elif t[0] == "putn":
+            out.append("putn %s %d %s" % (t[1], 0 if t[2] == "-" else len(t[2]) // 2, t[2]))
+        elif t[0] == "del":
+            out.append(o)
         elif t[0] == "sync":
             out.append("sync")
         else:
